@@ -1589,7 +1589,7 @@ def replay_wsink(ctx, fl):
         import rpmbytes as RB
         n = fl["sigsz"]
         cut = min(3, n)
-        sig_e = [(1000, "Bin", 0, cut), (1001, "Bin", cut, n - cut)] if n - cut > 0 and cut > 0 else ([(1000, "Bin", 0, n)] if n else [])
+        sig_e = [(1000, "Bin", 0, cut), (1001, "Bin", cut, n - cut)]          # the harness's two entries, a zero-count one included (n <= 3)
         pk = RB.package(sig_e, b"\x07" * n, [(1000, "Bin", 0, 4)], b"\x01\x02\x03\x04", b"abc")
         ans = ctx.native.ask("wsink", str(fl["k"]), str(fl["fail_at"]), str(fl["intr_at"]), fl["what"], pk.hex())
         return ans.startswith("bad"), "real crate, same sink script on a hand-encoded package with a %d-byte signature store (canonical bytes = the input): %s" % (n, ans)
